@@ -47,6 +47,7 @@ type fixture struct {
 	endTdx    *epb.VMLaunchEndorsement // endorses mA for SNP (2 VMSAs) and as MRTD
 	authNow   *fx.Authority
 	endNowBin []byte
+	endNowTdx *epb.VMLaunchEndorsement
 	end2Bin   []byte
 }
 
@@ -235,6 +236,19 @@ func scenarios() []scenario {
 					return fmt.Sprintf("now=%d ram=%d overwrite=%v base=%v endorsement=%v", to.Now.UnixNano(), to.ExpectedRAMGiB, to.Overwrite, to.BasePolicy != nil, to.Endorsement != nil)
 				}
 		}},
+		{"SevValidate+TdxValidate-default-clock-shared-options/A;B|tdxA", func(f *fixture, pt func(string)) ([][]call, func() string) {
+			// Now unset in options that are used again and again ("validate at the present time")
+			so := &gcetcbendorsement.SevValidateOptions{RootsOfTrust: f.authNow.Roots(), BasePolicy: &cpb.Policy{MinimumVersion: "0.0", Policy: prodPolicy}}
+			to := &gcetcbendorsement.TdxValidateOptions{RootsOfTrust: f.authNow.Roots(), Endorsement: f.endNowTdx}
+			return [][]call{
+					{{"A", func() error { return gcetcbendorsement.SevValidate(ctx, attA(f.endNowBin), so) }, "nil"},
+						{"B", func() error { return gcetcbendorsement.SevValidate(ctx, attB(f.endNowBin), so) }, "error"}},
+					{{"tdxA", func() error { return gcetcbendorsement.TdxValidate(ctx, att.TdxQuote(mA), to) }, "nil"}},
+				}, func() string {
+					return fmt.Sprintf("sev now=%v/%d vmsas=%d base=%v endorsement=%v | tdx now=%v/%d ram=%d overwrite=%v base=%v", so.Now.IsZero(), so.Now.UnixNano(), so.ExpectedLaunchVmsas, so.BasePolicy != nil, so.Endorsement != nil,
+						to.Now.IsZero(), to.Now.UnixNano(), to.ExpectedRAMGiB, to.Overwrite, to.BasePolicy != nil)
+				}
+		}},
 		{"TdxValidate+SevValidate-one-endorsement/A|B", func(f *fixture, pt func(string)) ([][]call, func() string) {
 			to := &gcetcbendorsement.TdxValidateOptions{RootsOfTrust: f.auth.Roots(), Now: f.now, Endorsement: f.endTdx}
 			so := &gcetcbendorsement.SevValidateOptions{RootsOfTrust: f.auth.Roots(), Now: f.now, Endorsement: f.endTdx,
@@ -307,6 +321,10 @@ func buildFixture(tag string) *fixture {
 			mc.Fatal("%v", err)
 		}
 		f.endNowBin, _ = proto.Marshal(en)
+		f.endNowTdx, err = f.authNow.SignGolden(att.Golden(map[uint32][]byte{2: mA}, nil, true, []att.TdxRow{{0, false, mA}}, true, present), present)
+		if err != nil {
+			mc.Fatal("%v", err)
+		}
 	}
 	{
 		// one endorsement with both technologies: SNP measurement mA and one TDX row with MRTD mA
